@@ -320,6 +320,12 @@ func (iter *inIndexIterator) Next() (indexIterResult, error) {
 }
 
 func (iter *inIndexIterator) Close() error {
+	if iter.hasIterator {
+		// the iterator of the value currently being visited is still open: this happens when
+		// the scan is abandoned or restarted before all values have been exhausted
+		iter.hasIterator = false
+		return iter.indexIterator.Close()
+	}
 	return nil
 }
 
